@@ -8,6 +8,7 @@ import Bermuda.Lemmas.UnitsPolicy
 import Bermuda.Lemmas.UnitsDisagg
 import Bermuda.Lemmas.UnitsBridge
 import Bermuda.Lemmas.UnitsTiling
+import Bermuda.Lemmas.UnitsAggregate
 import Bermuda.Spec.C18
 namespace Bermuda.Properties.C18
 open Bermuda Bermuda.Units Bermuda.Spec.C18
@@ -297,22 +298,55 @@ theorem disagg_spec_bridge {t out : List Cell} {res : Nat} {weights : Option (Li
   · exact .inl h1
   · exact .inr (disaggCore_spec hwf hws hcore)
 
+/-- **aggregate_disagg_partial.** Disaggregate a well-formed triangle (`disaggWF`; one period
+resolution `L` in all slices) and aggregate the result back with C08's model of `aggregate`
+(`periodRes = (q, s)` standardising to `L` months, no evaluation resolution, a month-end
+`periodOrigin` on whose `L`-grid all period starts lie — the harness passes `first ps − 1 day`).
+Unless the triangle was returned as is:
+* every aggregated cell sits exactly on the coordinates and metadata of an input cell that has an
+  observable sub-period, is a CumulativeCell, and every selected field whose rule is "sum of itself"
+  reads (C09's `at`, in-range index) the input cell's value;
+* every input cell with an observable sub-period has such an aggregated cell.
+Not included (the OPEN statement below): that each such cell occurs exactly once ACROSS slices (per
+slice: `aggregate_disagg_slice_keys`), that the aggregated cell has exactly the selected keys, and
+the bridge to the executable `aggBackSpec`. -/
+theorem aggregate_disagg_partial {tr : Transc} {t out back : List Cell} {res : Nat}
+    {weights : Option (List Num)} {fields : Option (List String)} {L q : Int} {s : String}
+    {origin : Date} {a : AggArgs}
+    (hwf : disaggWF res t = true) (hL : ∀ sl ∈ Triangle.slices t, periodResolution sl.2 = .ok L)
+    (hd : disaggregateExperience t res weights fields = .ok out)
+    (hov : origin.valid = true) (hoe : origin.isMonthEnd = true)
+    (hgrid : ∀ c ∈ t, ∃ z : Int, monthToId c.ps = monthToId origin + z * L + 1)
+    (hst : standardizeResolution q s = .ok (L, .month))
+    (hp : a.periodRes = some (q, s)) (he : a.evalRes = none) (ho : a.periodOrigin = origin)
+    (hagg : aggregate tr out a = .ok back) :
+    out = t ∨
+    ((∀ o ∈ back, ∃ c ∈ t, obsSubs c res (L / (res : Int)).toNat ≠ [] ∧
+      o.ps = c.ps ∧ o.pe = c.pe ∧ o.ev = c.ev ∧ o.md = c.md ∧ o.kind = .cumulative ∧
+      ∀ f i, (fields.getD Generated.Units.defaultInterpolationFields).contains f = true →
+        ruleOf [] (lowerKey f) = some ⟨.sum, [f]⟩ →
+        (a.prem = true ∨ f ∉ Generated.Summarize.nonLossMetrics) →
+        (∀ x ∈ out, (x.getV f).inRange i = true) →
+        (o.getV f).at i = (c.getV f).at i) ∧
+    (∀ c ∈ t, obsSubs c res (L / (res : Int)).toNat ≠ [] →
+      ∃ o ∈ back, o.md = c.md ∧ o.ps = c.ps ∧ o.pe = c.pe ∧ o.ev = c.ev)) := by
+  rcases disaggregateExperience_core hd with h1 | ⟨ws, hws, hcore⟩
+  · exact .inl h1
+  · exact .inr (aggregate_disagg_core hwf hL hws hcore hov hoe hgrid hst hp he ho hagg)
+
 -- OPEN aggregate_disagg
---   aggregate tr out {periodRes := (L, "month"), periodOrigin := first ps − 1 day} = .ok back →
---   back = the cells of t with an observable sub-period, restricted to the selected fields, as
---   CumulativeCells (what `Spec.C18.aggBackSpec` checks on the implementation in every run)
--- Available: `disagg_conserves` / `disaggCore_groups` (every group adds up to its cell and has exactly
--- the cell's observable sub-periods as periods), `disagg_tiling` (those are whole-month blocks inside
--- the cell's period), C08 `aggPeriod_cell_spec` (an aggregated cell is the sum of the cells
--- re-labelled into its window) and `assignWindows_first` / `FirstWindow.unique` / `iterD_month_monthEnd`
--- (a cell goes to the first window whose end is not before its start; month windows in closed form).
--- Missing, in this order: (1) `anchorBefore` from the month-end origin `first ps − 1 day` returns the
--- grid point `origin + j·L` just before the slice's first period (`walkDown` exits at once) — needs
--- all period starts on ONE `L`-grid from the origin (an extra well-formedness); (2) hence every
--- sub-period cell of `c` is re-labelled to exactly `(c.ps, c.pe)`; (3) hence the `key3` piles are the
--- groups, and with `(x.getV f).at i = cellField x f i` (distinct keys, in-range index) the summed
--- values are `cellField c f i`; (4) slices of the disaggregated triangle vs. the per-slice groups and
--- `sumTriangles` (permutation plumbing of `aggregateCum`, stability of the coordinate sort).
+--   … → back = the cells of t with an observable sub-period, restricted to the selected fields, as
+--   CumulativeCells; equivalently Spec.C18.aggBackSpec res fields 0 t back = true
+-- Proved: `aggregate_disagg_partial` (above) and, per slice, `aggregate_disagg_slice` /
+-- `aggregate_disagg_slice_keys` (Lemmas/UnitsAggregate.lean: the aggregated coordinates are a
+-- permutation of the coordinates of the cells with an observable sub-period).
+-- Missing: (1) multiplicity across slices (slices of the disaggregated triangle ↔ input slices with a
+-- non-empty group, then `sumTriangles`); (2) the aggregated cell carries exactly the selected keys
+-- (C09: keys of `summarizeCellValues` = `valueKeys`) and equal VALUES rather than equal `at`
+-- readings (int inputs come back as floats; arrays elementwise); (3) the sorted order used by the
+-- zip in `aggBackSpec`; (4) `standardizeResolution L "month" = .ok (L, .month)` itself is not
+-- kernel-checkable (String.toLower/splitOn do not reduce; same gap as C12's OPEN) — taken as a
+-- hypothesis. Checked on the implementation by `aggBackSpec` in every run.
 
 /-! ### 3. accident_quarter_to_policy_year -/
 
